@@ -179,6 +179,13 @@ static void opEnd(void) { fprintf(out, ",\"host\":[%s]", hostlog); dumpMems(); }
 '''
 
 
+def c_json_str(name):
+    """C string literal body that prints `name` as a JSON string body."""
+    j = json.dumps(name)[1:-1]
+    return j.replace("\\", "\\\\").replace('"', '\\"').replace("%", "%%") if False else \
+        "".join("\\%03o" % ord(c) if c in '"\\' or ord(c) < 32 or ord(c) > 126 else c for c in j)
+
+
 def c_bytes_literal(t, b):
     """C expression of type CT[t] with bit pattern b (little-endian bytes)."""
     v = wasm_encode.le_to_int(b)
@@ -212,7 +219,7 @@ def gen_harness(items, prefix):
             ty = m["types"][im["type"]]
             ret = CT[ty["r"][0]] if ty["r"] else "void"
             params = "".join(",%s a%d" % (CT[t], j) for j, t in enumerate(ty["p"]))
-            o.append("%s %s(void* inst%s) { int first_ = 1; hbegin(\"%s\", inst);" % (ret, cname, params, im.get("logname", im["name"])))
+            o.append("%s %s(void* inst%s) { int first_ = 1; hbegin(\"%s\", inst);" % (ret, cname, params, c_json_str(im.get("logname", im["name"]))))
             for j, t in enumerate(ty["p"]):
                 o.append("  HARG(\"%s\", %s, a%d);" % (t, CT[t], j))
             o.append("  (void)first_; hend();")
